@@ -4,7 +4,7 @@
      exists p, wf p /\ check p <> []                               (pinned frontend, late shadowing)   *)
 From Coq Require Import List Arith Bool Lia.
 Import ListNotations.
-From DDP Require Import Lang.MiniSyntax Lang.MiniTyping Lang.MiniTypingProofs Lang.MiniCheck Lang.MiniCheckProofs
+From DDP Require Import Lang.MiniSyntax Lang.MiniTyping Lang.MiniTypingProofs Lang.MiniCheck Lang.MiniGuard Lang.MiniCheckProofs
                         Lang.MiniShadowFree.
 
 (* G' binds everything G binds, in the same way *)
@@ -467,12 +467,14 @@ Proof.
     rewrite ck_for_eq, (IHb _ _ _ _ Eb Sb Hs0). unfold pt_type. rewrite E1, (art_diag_ok _ _ E2).
     destruct (tc_init_complete F G G (ext_refl G) Hs _ _ E4) as [_ [_ ->]].
     destruct (tc_numeric_complete F G G (ext_refl G) Hs _ E5) as [_ [_ ->]].
-    destruct (tc_init_complete F G Gb HxG (Hkb Hs0) _ _ E4) as [_ [-> _]].
-    destruct (tc_numeric_complete F G Gb HxG (Hkb Hs0) _ E5) as [_ [-> _]].
-    assert (Hst : pt_opt F G step = [] /\ rs_opt Gb step = []).
+    assert (HxGr : ext G (if q_tc_by_name Q then Gb else G)) by (destruct (q_tc_by_name Q); auto using ext_refl).
+    assert (HkGr : sok M (if q_tc_by_name Q then Gb else G)) by (destruct (q_tc_by_name Q); auto).
+    destruct (tc_init_complete F G _ HxGr HkGr _ _ E4) as [_ [-> _]].
+    destruct (tc_numeric_complete F G _ HxGr HkGr _ E5) as [_ [-> _]].
+    assert (Hst : pt_opt F G step = [] /\ rs_opt (if q_tc_by_name Q then Gb else G) step = []).
     { destruct step as [e|]; [| split; reflexivity]. cbn.
       destruct (tc_numeric_complete F G G (ext_refl G) Hs _ E6) as [_ [_ ->]].
-      destruct (tc_numeric_complete F G Gb HxG (Hkb Hs0) _ E6) as [_ [-> _]]. split; reflexivity. }
+      destruct (tc_numeric_complete F G _ HxGr HkGr _ E6) as [_ [-> _]]. split; reflexivity. }
     destruct Hst as [-> ->]. cbn [unless app].
     rewrite Hre; auto using ext_refl.
   - intros G d r G1 H1 _ _. cbn in *. destruct d; inversion H1; reflexivity.
